@@ -209,6 +209,9 @@ func (rs *runState) explore(e *Entry, params map[string]int, maxPaths int) *entr
 		}
 		idle = append(idle, r.w)
 		pr := r.pr
+		if os.Getenv("GOSYM_VERBOSE") != "" {
+			fmt.Fprintf(os.Stderr, "path %d: %s %s dec=%d instrs=%d q=%d wall=%.0fms alts=%d viol=%d\n", st.Paths, pr.Status, firstLine(pr.Why), pr.Decisions, pr.Instrs, pr.Queries, pr.WallMs, len(pr.Alts), len(pr.Violations))
+		}
 		for _, a := range pr.Alts {
 			stack = append(stack, item{a})
 		}
@@ -593,6 +596,9 @@ func checkMain(id, tier string) int {
 					if m.isViolation {
 						what = "violation (" + m.v.Msg + ")"
 					}
+					mf := filepath.Join(work, fmt.Sprintf("mismatch_%d.json", len(mismatches)+1))
+					mb, _ := json.MarshalIndent(map[string]interface{}{"property": cfg.Property, "entry": r.Entry, "package": entryPkg[r.Entry], "params": r.Params, "script": r.Script, "predicted_trace": want, "native_trace": o.Trace}, "", " ")
+					os.WriteFile(mf, mb, 0o644)
 					mismatches = append(mismatches, fmt.Sprintf("%s of %s: engine predicted %v, native produced %v (panic=%q) on %s", what, r.Entry, want, o.Trace, o.Panic, scriptText(r.Script)))
 				}
 			}
